@@ -26,6 +26,8 @@ def run(tier):
             cfgs.append(c)
     res = parts.run_parts(ck, tier, ir_parts=('ir_bounds',), cfgs=cfgs)
     r = res.get('ir_bounds', [])
+    from .. import irrules
+    irrules.run_canaries(ck, {'ir_bounds': [('R12.1', 'canary_unbounded')]}, silent=('canary_ok_bounded',))
     ck.floor('allocation requests examined', sum(x['res']['allocation_sites'] for x in r),
              800 if tier == 'quick' else 8000)
     ck.floor('narrowing conversions of caller-supplied lengths examined', sum(x['res']['truncs'] for x in r), 2)
